@@ -16,6 +16,9 @@ IRFLAGS = ['-O1', '-fno-vectorize', '-fno-slp-vectorize', '-fno-unroll-loops', '
            '-I' + REPO + '/include', '-S', '-emit-llvm', '-Wno-everything']
 
 
+LINECOV = bool(os.environ.get('VERIF_LINECOV'))
+
+
 def sh(cmd, **kw):
     return subprocess.run(cmd, stdout=subprocess.PIPE, stderr=subprocess.PIPE, text=True, **kw)
 
@@ -35,7 +38,7 @@ def lower(run, work):
     ll = os.path.join(work, run.name + '.ll')
     flags = ['-std=' + run.std] + (['-fgnuc-version=' + run.gnuc] if run.gnuc else []) + IRFLAGS + (['-fexceptions'] if run.exc else ['-fno-exceptions']) + defs(run.defines)
     flags = [f for f in flags if not (run.opt and f == '-O1')] + (['-' + run.opt] if run.opt else [])
-    if run.shared_points: flags.append('-gline-tables-only')   # line tables tell library code from harness bookkeeping
+    if run.shared_points or LINECOV: flags.append('-gline-tables-only')   # line tables tell library code from harness bookkeeping
     r = sh([CLANG] + flags + [src, '-o', ll])
     if r.returncode != 0 and not run.exc and 'exceptions disabled' in r.stderr:
         # the library under test uses try/catch/throw on this tree: lower with exceptions enabled instead (the engine executes invoke/landingpad)
@@ -273,9 +276,13 @@ def explore_run(pid, run, tier, work, nproc, log):
     res['lowering'] = {'cmd': L.cmd, 'ir_lines': L.lines, 'secs': round(L.secs, 2)}
     procs = start_native_builds(run, work, run.native) if run.native else {}
     eng = symx.Engine(L.module, run.entry, max_faults=run.faults, max_preempt=run.preempt, max_path_steps=run.max_path_steps,
-                      single_threaded_libc=not run.mt, shared_points=run.shared_points)
+                      single_threaded_libc=not run.mt, shared_points=run.shared_points, linecov=LINECOV)
     tot = symx.run(eng, nproc, run.budget_s)
     res['tot'] = tot
+    cov = tot.pop('cov', set())
+    if LINECOV:      # tools/linecov.py: which lines of /repo/include/eventpp did the symbolic runs execute (alphabet-gap finder; not part of any verdict)
+        d = os.path.join(OUT, 'linecov'); os.makedirs(d, exist_ok=True)
+        json.dump({'present': sorted(eng.lines), 'covered': sorted(eng.lines[i] for i in cov)}, open(os.path.join(d, '%s__%s.json' % (pid, run.name)), 'w'))
     log('  [%s] paths=%d steps=%d forks=%d queries=%d qtime=%.1fs wall=%.1fs violations=%d inconclusive=%d' % (
         run.name, tot['paths'], tot['steps'], tot['forks'], tot['queries'], tot['qtime'], tot['wall'], tot['nviol'], len(tot['inconclusive'])))
     for x in tot['inconclusive'][:5]: res['problems'].append('inconclusive: ' + x)
